@@ -27,21 +27,11 @@ import (
 	"github.com/apache/skywalking-banyandb/pkg/timestamp"
 )
 
-// VerifRow is one data point (unique series/timestamp per row by construction of the driver).
-type VerifRow struct {
-	SID uint64
-	TS  int64
-	Val int64
-}
+// VerifRow is the shared row type.
+type VerifRow = storage.VerifRow
 
-// VerifPartInfo describes one partWrapper the driver has seen.
-type VerifPartInfo struct {
-	ID        uint64
-	Mem       bool
-	Ref       int32
-	Removable bool
-	DirExists bool
-}
+// VerifPartInfo is the shared part description.
+type VerifPartInfo = storage.VerifPartInfo
 
 type verifTracked struct {
 	pw  *partWrapper
@@ -243,7 +233,7 @@ func (v *VerifTable) Snapshot(dst string) (bool, error) {
 // Settle waits until every dead removable file part the driver knows has been removed by its asynchronous
 // `go MustRMAll` (partWrapper.decRef). Returns false on timeout.
 func (v *VerifTable) Settle() bool {
-	deadline := time.Now().Add(3 * time.Second)
+	deadline := time.Now().Add(30 * time.Second)
 	for {
 		pending := false
 		for _, t := range v.track {
@@ -359,16 +349,8 @@ func (v *VerifTable) Query() (rows []VerifRow, err error) {
 	return rows, nil
 }
 
-// VerifManifest describes a table directory as the loader sees it, without opening it.
-type VerifManifest struct {
-	Err       string
-	Epochs    []uint64
-	Listed    []uint64 // part ids named by the newest manifest
-	Dirs      []uint64 // part directories present
-	BadDirs   []string // directories whose name is not a part id
-	Complete  map[uint64]bool
-	OtherFile []string
-}
+// VerifManifest is the shared directory description.
+type VerifManifest = storage.VerifManifest
 
 // VerifInspectDir reads a table directory (a snapshot copy) the way initTSTable would, but read-only:
 // manifests present, part ids listed by the newest one, part directories present and whether each passes the
